@@ -64,7 +64,7 @@ void h_botp(void)
 		u64 w = 0;
 		botpTimeToCtr(ctr, t);
 		for (i = 0; i < 8; ++i) w = w << 8 | ctr[i];
-		V_ASSERT(w == (u64)t, "botpTimeToCtr: 8-octet big-endian time step");
+		V_ASSERT(w == (sizeof(t) == 4 ? (u64)(u32)t : (u64)t), "botpTimeToCtr: 8-octet big-endian time step (zero-extended)");
 	}
 	V_CANARY("botp");
 }
